@@ -6,3 +6,6 @@ package graphicsstate
 
 // VerifStackLen is the number of graphics states saved by q and not yet restored.
 func VerifStackLen(gs *GraphicsState) int { return len(gs.stack) }
+
+// VerifPathLen is the number of segments of the path under construction.
+func VerifPathLen(ge *GraphicsExtractor) int { return len(ge.pathExtractor.currentPath.Segments) }
